@@ -662,6 +662,7 @@ func checkQuantifier(c *Ctx, p *packages.Package, fd *ast.FuncDecl, rule string)
 		}
 		q := &quantEval{p: p, info: info, operand: operand, accs: map[types.Object]civ{}}
 		problem := ""
+		clamped := ""
 		var walk func(list []ast.Stmt, mode string) // mode: both | bounded | unbounded
 		addTo := func(acc types.Object, x civ, mode string) {
 			if mode != "unbounded" {
@@ -777,6 +778,10 @@ func checkQuantifier(c *Ctx, p *packages.Package, fd *ast.FuncDecl, rule string)
 						problem = "loop bound not understood"
 						continue
 					}
+					// the trip count is max(0, bound); it is linear only if the bound cannot be negative for 0 <= low <= up
+					if bound.c < 0 || bound.u < 0 || bound.l+bound.u < 0 {
+						clamped = fmt.Sprintf("the loop `%s` runs max(0, %s) times, which is not %s when the minimum is 0: what is appended outside the loop makes the operand occur for n = 0 as well", types.ExprString(s.Cond), bound, bound)
+					}
 					for _, b := range s.Body.List {
 						as, ok := b.(*ast.AssignStmt)
 						if !ok {
@@ -826,6 +831,11 @@ func checkQuantifier(c *Ctx, p *packages.Package, fd *ast.FuncDecl, rule string)
 		_ = result
 		if resIsAcc == nil || problem != "" {
 			c.Undecided(rule, key+": range repetition", cl.Pos(), "expansion not understood: "+problem)
+			continue
+		}
+		if clamped != "" {
+			c.Fail(rule, key+": {n,m} repeats the operand between n and m times", cl.Pos(), clamped)
+			c.Fail(rule, key+": {n,} repeats the operand n or more times", cl.Pos(), clamped)
 			continue
 		}
 		gb, gu := bounded[resIsAcc], unbounded[resIsAcc]
